@@ -323,6 +323,9 @@ class PktGen:
     def gen_opt(self):
         d = self.draw
         elem = self.gen_elem(allow_refsel=False)
+        if chance(d, 0.15):
+            # content that may be empty: present-but-empty must still differ from absent
+            elem = {"k": "data", "name": "_", "incl": False, "size": ["field", self.control()]}
         when = self.spec_of(self.cond_expr())
         if self.prof["relpos"] and chance(d, self.prof.get("relpos_p", 0.2) / 2):
             # a condition on where we are inside the innermost packet (uses the offset / innermost-pkt-pos callable arguments)
@@ -398,6 +401,8 @@ class PktGen:
         k = f["k"]
         if k in ("int", "bits"):
             f["default"] = self.simple_value(f)
+            if k == "bits" and chance(d, 0.5):
+                f["posdefault"] = True          # documented signature: Bits(bit_count, default=0)
         elif k == "data":
             v = self.simple_value(f)
             if v:
